@@ -461,3 +461,515 @@ def sharded_verdict(spec, records, open_records, acc, nparts):
     acc.seen("classes", (tg.fam, spec[1], "sharded-3-byte-attempt"))
     acc.seen("configs", tuple(spec))
     acc.count("sharded_configs")
+
+
+# ---------------------------------------------------------------------------
+# large composite trees: split by the first byte, histograms added up by the parent
+# ---------------------------------------------------------------------------
+def tree_part(spec, extra, firsts, acc):
+    tg = make_target(spec)
+    hist = {}
+    first_tape = {}
+    opens = {}
+    bits = tg.tapecls.bits
+
+    def on_leaf(cont, out):
+        k = (len(cont), sum(bits(a) for a in cont), out)
+        hist[k] = hist.get(k, 0) + 1
+        if k not in first_tape:
+            first_tape[k] = cont
+
+    def on_open(cont):
+        c = sum(bits(a) for a in cont)
+        opens[c] = opens.get(c, 0) + 1
+    n = T.walk(tg.run, tg.base_calls + extra, tg.tapecls, set(firsts), on_leaf, on_open)
+    acc.count("evaluations", n)
+    acc.count("tapes", sum(hist.values()) + sum(opens.values()))
+    acc.seen("thist", (tuple(spec), extra, tuple(firsts),
+                       tuple(sorted((k, c, tg.tapecls.show(first_tape[k])) for k, c in hist.items())),
+                       tuple(sorted(opens.items()))))
+
+
+def tree_verdict(spec, extra, records, nparts, acc):
+    tg = make_target(spec)
+    case = {"part": "bigtree", "spec": list(spec), "extra": extra}
+
+    def viol(tag, text):
+        acc.violation("C18/%s/%s" % (tg.fam, tag), "%s: %s" % (tg.name, text), case, size=tg.size)
+    if len(set(r[2] for r in records)) != nparts:
+        acc.error("%s: %d of %d tree parts reported" % (tg.name, len(records), nparts))
+        return
+    dom = tg.domain
+    domset = set(dom)
+    groups = {}
+    total = Fraction(0)
+    for r in records:
+        for (ncalls, cost, out), c, tape in r[3]:
+            if isinstance(out, tuple) and len(out) == 2 and out[0] == "exc":
+                viol("raises-%s" % out[1], "tape %s makes the call raise %s" % (tape, out[1]))
+                return
+            if out not in domset:
+                viol("out-of-range", "tape %s gives %r, not one of the %d documented outcomes" % (tape, out, len(dom)))
+                return
+            g = groups.setdefault(ncalls, {})
+            g[out] = g.get(out, 0) + Fraction(c, 1 << cost)
+            total += Fraction(c, 1 << cost)
+        for cost, c in r[4]:
+            total += Fraction(c, 1 << cost)
+    if total != 1:
+        acc.error("%s: tape weights of the split tree sum to %s" % (tg.name, total))
+        return
+    for ncalls in sorted(groups):
+        g = groups[ncalls]
+        ws = [(g.get(v, Fraction(0)), v) for v in dom]
+        lo, hi = min(ws), max(ws)
+        if lo[0] != hi[0]:
+            viol("nonuniform", "among the tapes answering %d requests, outcome %r has weight %s but outcome %r has weight %s "
+                 "(%d documented outcomes)" % (ncalls, hi[1], hi[0], lo[1], lo[0], len(dom)))
+            return
+    acc.seen("classes", (tg.fam, tg.variant, tg.spec[2:], len(groups), "split-tree"))
+    acc.seen("configs", tuple(spec) + (extra,))
+    acc.count("tree_configs")
+    acc.count("tree_groups", len(groups))
+    if len(groups) > 1:
+        acc.count("tree_configs_with_rejection")
+
+
+# ---------------------------------------------------------------------------
+# grids
+# ---------------------------------------------------------------------------
+def _bytes_for_bits(b):
+    return (b + 7) // 8
+
+
+def _predict(spec, limit, maxdepth, cross):
+    """predicted number of executions (from the reference sampler's structure); only used to balance shards"""
+    k = spec[0]
+    rej = 0
+    if k == "irange":
+        nm = spec[3]
+        bits = max(1, nm.bit_length())
+        Tn = 256 ** _bytes_for_bits(bits)
+        rej = Tn * ((1 << bits) - 1 - nm) >> bits
+        unit = 38 if spec[1] == "GMP" else 22
+    elif k == "irandom":
+        Tn = 256 ** _bytes_for_bits(spec[2])
+        unit = 16 if spec[1] == "GMP" else 11
+    elif k in ("grb", "gri", "grn"):
+        Tn = 256 ** max(1, _bytes_for_bits(spec[-1]))
+        unit = 9
+    elif k in ("randrange", "randint", "choice"):
+        if k == "randrange":
+            n = len(range(spec[2], spec[3], spec[4]))
+        elif k == "randint":
+            n = spec[3] - spec[2] + 1
+        else:
+            n = spec[2]
+        if n <= 0:
+            return 20
+        bits = n.bit_length()
+        Tn = 256 ** _bytes_for_bits(bits)
+        rej = Tn * ((1 << bits) - n) >> bits
+        unit = 10
+    elif k == "grr":
+        nm = spec[2] - spec[1] - 1
+        bits = nm.bit_length()
+        Tn = 256 ** max(1, _bytes_for_bits(bits))
+        rej = (Tn * ((1 << bits) - 1 - nm) >> bits) if bits else 0
+        unit = 8
+    else:
+        return 1000
+    tot = Tn
+    d = 0
+    nodes = rej
+    while d < maxdepth and nodes and nodes * Tn <= limit:
+        tot += nodes * Tn * (d + 2) // 2
+        nodes *= rej
+        d += 1
+    if cross and d == 0 and rej and maxdepth:
+        tot += rej * 6 + 3 * Tn * 2
+    return tot * unit
+
+
+def _two_byte_nms(incl):
+    """norm maxima (max-min for max_inclusive, max-min-1 for max_exclusive) needing 9..16 bits"""
+    widths = set(range(256, 301))
+    for k in range(8, 17):
+        widths |= {(1 << k) - 1, 1 << k, (1 << k) + 1}
+    nms = set(w if incl else w - 1 for w in widths)
+    return sorted(n for n in nms if 256 <= n <= 65535)
+
+
+def build_jobs(q):
+    """-> list of (job tuple, predicted cost).  Job kinds: single, tree, consumer, sharded, bigtree"""
+    J = []
+
+    def single(spec, limit, md, cross=False):
+        J.append((("single", spec, limit, md, cross), _predict(spec, limit, md, cross)))
+    L_SMALL, L_FULL, L_DEEP = 4096, 32768, 1 << 18
+    # ---- A: Integer.random, 1..16 bits, exact/max, three back-ends (no rejection: the tree is complete)
+    for be in BACKENDS:
+        for bits in range(1, 17):
+            for exact in (False, True):
+                single(("irandom", be, bits, exact), 0, 0)
+    # ---- B: Integer.random_range
+    for be in BACKENDS:
+        for lo in range(4):
+            for incl in (True, False):
+                for w in range(1, 301):
+                    nm = w if incl else w - 1
+                    if nm > 255:
+                        continue
+                    if q:
+                        lim = L_SMALL
+                    elif be == "Native" or lo in (0, 3):
+                        lim = L_FULL
+                    else:
+                        lim = L_SMALL
+                    single(("irange", be, lo, nm, incl), lim, 2)
+    for nm in range(1, 256):           # deeper: Native, min=1
+        single(("irange", "Native", 1, nm, True), L_FULL if q else L_DEEP, 2)
+    for be in ("Custom", "GMP"):
+        for k in range(1, 9):
+            for nm in ((1 << k) - 2, (1 << k) - 1, 1 << k, (1 << k) + 1):
+                if 0 <= nm <= 255 and q:
+                    single(("irange", be, 3, nm, False), L_FULL, 2)
+    if q:
+        for nm in (256, 257, 299, 300, 511, 512, 513, 1023, 1024, 4095, 4096, 32767, 32768, 65534, 65535):
+            single(("irange", "Native", 1, nm, True), L_FULL, 1, cross=nm in (300, 65534))
+        for be in ("Custom", "GMP"):
+            for nm in (256, 300, 512, 65535):
+                single(("irange", be, 2, nm, False), L_FULL, 1)
+    else:
+        for incl in (True, False):
+            for nm in _two_byte_nms(incl):
+                for lo in range(4):
+                    single(("irange", "Native", lo, nm, incl), L_FULL, 1, cross=(lo == 1 and incl))
+                for be in ("Custom", "GMP"):
+                    single(("irange", be, 3, nm, incl), L_FULL, 1, cross=(incl and nm in (300, 511, 512)))
+        for part in range(32):
+            J.append((("sharded", ("irange", "Native", 1, 65536, True), tuple(range(part * 8, part * 8 + 8)), 32), 65536 * 8 * 22))
+    # ---- C: StrongRandom
+    for k in range(1, 17):
+        single(("grb", "randfunc", k), 0, 0)
+    for variant in ("rng", "module"):
+        for k in (1, 2, 3, 4, 5, 6, 7, 8, 9, 16):
+            single(("grb", variant, k), 0, 0)
+    if not q:
+        for part in range(32):
+            J.append((("sharded", ("grb", "randfunc", 17), tuple(range(part * 8, part * 8 + 8)), 32), 65536 * 8 * 9))
+    for start in range(4):
+        for w in range(1, 302):
+            for step in (1, 2, 3):
+                n = len(range(start, start + w, step))
+                if n <= 255:
+                    single(("randrange", "randfunc", start, start + w, step), L_SMALL if q else L_FULL, 2)
+                elif not q or (start == 0 and w in (256, 257, 300, 301)):
+                    single(("randrange", "randfunc", start, start + w, step), L_FULL, 1, cross=(start == 0 and w in (256, 300)))
+        for w in (1, 2, 7, 300):
+            single(("randrange", "randfunc", start + w, start, -1), L_SMALL, 1)
+    for w in range(1, 256):
+        single(("randrange", "randfunc", 1, 1 + w, 1), L_FULL if q else L_DEEP, 2)
+    for variant in ("rng", "module"):
+        for w in range(1, 41):
+            single(("randrange", variant, 0, w, 1), L_SMALL, 2)
+    for a in range(4):
+        for d in range(1, 301):
+            if d + 1 <= 255:
+                single(("randint", "randfunc", a, a + d), L_SMALL if q else L_FULL, 2)
+            elif not q or (a == 0 and d in (255, 300)):
+                single(("randint", "randfunc", a, a + d), L_FULL, 1)
+    for n in range(1, 8):
+        single(("choice", "randfunc", n), L_DEEP if q else 1 << 20, 2)
+        single(("choice", "module", n), L_FULL, 2)
+        single(("choice", "bit", n), 1 << 16, 4)
+    # ---- D: legacy helpers
+    for N in range(0, 17):
+        single(("gri", N), 0, 0)
+    for N in range(1, 17):
+        single(("grn", N), 0, 0)
+    for a in range(4):
+        for d in range(1, 302):
+            if d - 1 <= 255:
+                single(("grr", a, a + d), (L_FULL if a == 1 else L_SMALL) if q else L_FULL, 2)
+            elif not q or (a == 1 and d in (257, 258, 301)):
+                single(("grr", a, a + d), L_FULL, 1, cross=(a == 1 and d == 301))
+    # ---- E: composite selections
+    def tree(spec, extra):
+        J.append((("tree", spec, extra), 600000))
+    for n in (0, 1):
+        tree(("shuffle", "randfunc", n), 0)
+    tree(("shuffle", "randfunc", 2), 1)
+    tree(("shuffle", "module", 2), 1)
+    tree(("shuffle", "randfunc", 3), 0)
+    for n in range(0, 6):
+        tree(("sample", "randfunc", n, 0), 0)
+        if n >= 1:
+            tree(("sample", "randfunc", n, 1), 1)
+        if n >= 2:
+            tree(("sample", "randfunc", n, 2), 0)
+    tree(("sample", "module", 3, 2), 0)
+    cap = (1 << 17) if q else (1 << 21)
+    for n in range(2, 5):
+        bits = [i.bit_length() for i in range(n, 1, -1)]
+        e = _bit_extra(bits, cap)
+        tree(("shuffle", "bit", n), e)
+    for n in range(1, 6):
+        for k in range(1, n + 1):
+            e = _bit_extra([n.bit_length()] * k, cap)
+            tree(("sample", "bit", n, k), e)
+    if not q:
+        def bigtree(spec, extra, cost):
+            for part in range(64):
+                J.append((("bigtree", spec, extra, tuple(range(part * 4, part * 4 + 4)), 64), cost // 64))
+        bigtree(("shuffle", "randfunc", 4), 0, 17000000 * 10)
+        bigtree(("shuffle", "randfunc", 3), 1, 11000000 * 10)
+        bigtree(("shuffle", "randfunc", 2), 2, 4300000 * 10)
+        bigtree(("sample", "randfunc", 5, 3), 0, 17000000 * 10)
+        bigtree(("sample", "randfunc", 3, 3), 0, 17000000 * 10)
+        bigtree(("sample", "randfunc", 5, 2), 1, 17000000 * 10)
+        bigtree(("sample", "randfunc", 3, 2), 1, 12000000 * 10)
+    # ---- F: cryptographic sizes
+    for spec in consumer_specs(q):
+        J.append((("consumer", spec), 900000 if spec[0] == "rsagen" else (60000 if spec[0] in ("dsasig", "dsagen", "blind", "dsafull") else 8000)))
+    return J
+
+
+def _bit_extra(bits, cap):
+    """largest number of extra getrandbits requests (<= 4) keeping the bit-level tree below `cap` paths"""
+    base = 1
+    for b in bits:
+        base <<= b
+    e = 0
+    while e < 4 and (base << (max(bits) * (e + 1))) <= cap:
+        e += 1
+    return e
+
+
+def consumer_specs(q):
+    from . import _c18_consumers as C
+    from ..ref import ec as REC
+    from ..keys import dsa_key
+    S = []
+    for cv in C.P_CURVES:
+        for kd in C.head_kinds(REC.CURVES[cv].order - 2):
+            S.append(("ecgen", cv, kd))
+            S.append(("ecdsa", cv, kd))
+    for cv in sorted(C.SEED_CURVES):
+        for kd in C.SEED_KINDS:
+            S.append(("ecseed", cv, kd))
+    for L, N in C.DSA_SIZES:
+        for kd in C.head_kinds(int(dsa_key(L, N).q) - 2):
+            S.append(("dsasig", L, kd))
+        for kd in C.DSAGEN_KINDS:
+            S.append(("dsagen", L, kd))
+    for kd in C.RSAGEN_KINDS:
+        S.append(("rsagen", 1024, kd))
+        if not q:
+            S.append(("rsagen", 2048, kd))
+            S.append(("rsagen", 1025, kd))
+    S.append(("dsafull", 1024))
+    if not q:
+        S.append(("dsafull", 2048))
+    for w in ("ECDSA", "DSA", "RSA"):
+        order = {"ECDSA": REC.CURVES["p256"].order, "DSA": int(dsa_key(1024, 160).q)}.get(w)
+        if order is None:
+            from ..keys import rsa_components
+            order = rsa_components(1024)["n"]
+        for kd in C.head_kinds(order - 2):
+            S.append(("blind", w, kd))
+    ks = (64, 255, 256, 521, 1024) if q else (8, 63, 64, 65, 127, 128, 255, 256, 257, 383, 384, 520, 521, 1023, 1024, 2048)
+    for be in BACKENDS:
+        for cv in C.P_CURVES:
+            for kd in C.head_kinds(REC.CURVES[cv].order - 2):
+                S.append(("bigrange", be, "order", cv, 0, kd, False))
+        for loname in ("0", "big"):
+            for k in ks:
+                for delta in (-2, -1, 0, 1):
+                    for kd in C.head_kinds((1 << k) + delta):
+                        for incl in ((True, False) if loname == "0" else (True,)):
+                            S.append(("bigrange", be, loname, k, delta, kd, incl))
+        for bits in (63, 64, 65, 127, 128, 159, 160, 161, 224, 255, 256, 257, 511, 512, 513, 1023, 1024, 1025, 2047, 2048):
+            for exact in (False, True):
+                for kd in C.SEED_KINDS:
+                    S.append(("bigrandom", be, bits, exact, kd))
+    return S
+
+
+# ---------------------------------------------------------------------------
+# workers
+# ---------------------------------------------------------------------------
+def worker(jobs):
+    from . import _c18_consumers as C
+    acc = Acc()
+    restore_module_rng()            # remember the module-level entropy source
+    with T.Tripwire() as tw:
+        _Ctl.trip = tw
+        try:
+            for job in jobs:
+                kind = job[0]
+                if kind == "single":
+                    check_single(job[1], job[2], job[3], job[4], acc)
+                elif kind == "tree":
+                    check_tree(job[1], job[2], acc)
+                elif kind == "sharded":
+                    sharded_part(job[1], job[2], acc)
+                elif kind == "bigtree":
+                    tree_part(job[1], job[2], job[3], acc)
+            _Ctl.trip = None
+        finally:
+            _Ctl.trip = None
+    for job in jobs:                 # consumers install their own tripwire/recorder
+        if job[0] == "consumer":
+            C.check_consumer(job[1], acc)
+    return acc
+
+
+def _balance(jobs, nshards):
+    """longest-processing-time-first assignment of (job, cost) to shards"""
+    order = sorted(range(len(jobs)), key=lambda i: (-jobs[i][1], i))
+    loads = [0] * nshards
+    shards = [[] for _ in range(nshards)]
+    import heapq
+    heap = [(0, i) for i in range(nshards)]
+    for i in order:
+        load, s = heapq.heappop(heap)
+        shards[s].append(jobs[i][0])
+        heapq.heappush(heap, (load + jobs[i][1], s))
+    return [s for s in shards if s]
+
+
+def run(ctx):
+    q = ctx.quick
+    jobs = build_jobs(q)
+    heavy = [j for j in jobs if j[1] >= 3000000]
+    light = [j for j in jobs if j[1] < 3000000]
+    shards = [[j[0]] for j in sorted(heavy, key=lambda j: -j[1])] + _balance(light, 96 if q else 256)
+    ctx.pmap(worker, shards)
+    a = ctx.acc
+    # ---- verdicts of the split trees
+    rle = {}
+    for r in a.distinct.get("rle", ()):
+        rle.setdefault(r[0], []).append(r)
+    rle_open = {}
+    for r in a.distinct.get("rle_open", ()):
+        rle_open.setdefault(r[0], []).append(r)
+    for spec, nparts in sorted(set((j[0][1], j[0][3]) for j in jobs if j[0][0] == "sharded")):
+        sharded_verdict(spec, rle.get(spec, []), rle_open.get(spec, []), a, nparts)
+    th = {}
+    for r in a.distinct.get("thist", ()):
+        th.setdefault((r[0], r[1]), []).append(r)
+    for spec, extra, nparts in sorted(set((j[0][1], j[0][2], j[0][4]) for j in jobs if j[0][0] == "bigtree")):
+        tree_verdict(spec, extra, th.get((spec, extra), []), nparts, a)
+    a.distinct.pop("rle", None)
+    a.distinct.pop("rle_open", None)
+    a.distinct.pop("thist", None)
+    # ---- vacuity guards
+    n = a.n
+    njobs = sum(1 for j in jobs if j[0][0] in ("single", "tree", "consumer"))
+    ctx.require(n.get("configs_done", 0) == njobs, "%d of %d cases were executed" % (n.get("configs_done", 0), njobs))
+    cl = a.distinct.get("classes", set())
+    fams = set(c[0] for c in cl)
+    for f in ("Integer.random", "Integer.random_range", "StrongRandom.getrandbits", "StrongRandom.randrange", "StrongRandom.randint",
+              "StrongRandom.choice", "StrongRandom.shuffle", "StrongRandom.sample", "number.getRandomInteger", "number.getRandomRange",
+              "number.getRandomNBitInteger", "ECC.generate", "ECDSA-nonce", "DSA-nonce", "DSA.generate", "RSA.generate", "blinding",
+              "Integer.random_range/full-size", "Integer.random/full-size"):
+        ctx.require(f in fams, "no case of %s completed" % f)
+    ctx.require(all(any(c[0] == "Integer.random_range" and c[1] == be for c in cl) for be in BACKENDS), "a back-end was not exercised")
+    ctx.require(n.get("configs_with_rejection", 0) > 100 and n.get("configs_without_rejection", 0) > 50,
+                "the grids did not contain both ranges with and without rejection")
+    ctx.require(n.get("depth1_configs", 0) > 50 and n.get("depth2_configs", 0) > 20 and n.get("nodes_after_rejection", 0) > 1000,
+                "too few attempts after a rejection were compared with the fresh attempt")
+    ctx.require(n.get("cross_configs", 0) >= 2, "no two-byte attempt was cross-enumerated after a rejection")
+    ctx.require(n.get("tree_configs_with_rejection", 0) >= 5, "composite selections were not explored beyond zero rejections")
+    ctx.require(any(c[0] == "ECC.generate" and c[2] == "first-attempt-accepted" for c in cl if len(c) == 4)
+                and any(c[0] == "ECC.generate" and str(c[2]).startswith("rejected") for c in cl if len(c) == 4)
+                and any(c[0] == "ECC.generate" and c[3] is True for c in cl if len(c) == 4),
+                "boundary tapes did not reach both sides of the accept/reject edge (or never set masked-off bits)")
+    ctx.require(len(set(c[1] for c in cl if c[0] == "ECC.generate")) == 9, "not all nine curves were generated on")
+    ctx.require(n.get("recorded_integer_draws", 0) > 1000, "the recorder saw too few internal Integer draws")
+    ctx.require(n.get("negative_step_refused", 0) + sum(1 for c in cl if c[0] == "StrongRandom.randrange") > 0, "randrange not exercised")
+    ctx.require(n.get("attempt_maps_equal_reference", 0) > 100 or bool(a.obs), "reference comparison never ran")
+    ctx.coverage_extra.update({
+        "evaluations": n.get("evaluations", 0),
+        "complete_tapes_enumerated": n.get("tapes", 0),
+        "distinct_nontrivial": len(cl),
+        "distinct_cases": len(a.distinct.get("configs", ())),
+        "exhaustive": not a.caps,
+        "cases_by_rejection_depth_completely_enumerated": {str(d): n.get("depth%d_configs" % d, 0) for d in (0, 1, 2, 3, 4)},
+        "attempts_after_rejection_compared_with_fresh_attempt": n.get("nodes_after_rejection", 0),
+        "cross_enumerated_two_byte_cases": n.get("cross_configs", 0),
+        "cross_pairs": n.get("cross_pairs", 0),
+        "attempt_maps_equal_to_reference_sampler": n.get("attempt_maps_equal_reference", 0),
+        "composite_trees": n.get("tree_configs", 0),
+        "composite_tree_rejection_groups": n.get("tree_groups", 0),
+        "split_three_byte_attempt_trees": n.get("sharded_configs", 0),
+        "recorded_internal_integer_draws_checked": n.get("recorded_integer_draws", 0),
+        "rsa_prime_candidates_checked": n.get("rsa_candidates_checked", 0),
+        "grid": {
+            "Integer.random": "exact_bits/max_bits 1..16 x Native/Custom/GMP: every tape (256 or 65536), no rejection possible",
+            "Integer.random_range": "min 0..3 x max-min 1..300 x {max_inclusive, max_exclusive} x 3 back-ends for ranges of <= 8 bits: every "
+                                    "1-byte tape, plus every further attempt after every rejected prefix while a level has <= %s tapes "
+                                    "(<= 2 rejections); Native min=1: limit %s; ranges of 9..16 bits (%s): every 2-byte tape of the "
+                                    "first attempt, cross enumeration after a rejection on the marked cases%s"
+                                    % ("4096 (quick)" if q else "32768 (Native; min 0,3 for Custom/GMP), 4096 otherwise", "32768" if q else "262144",
+                                       "15 Native + 4 Custom/GMP boundary widths" if q else "max-min 256..300 and 2^k-1,2^k,2^k+1 for k<=16",
+                                       "" if q else "; 17-bit range [1, 65537]: all 2^24 tapes of the first attempt (Native)"),
+            "StrongRandom": "getrandbits 1..16%s (randfunc=), 1..9,16 (rng=, module level); randrange start 0..3 x width 1..301 x step 1,2,3 "
+                            "(+ step -1), randint a 0..3 x b-a 1..300, choice n<=7; byte-level trees: shuffle n<=%s, sample n<=5 k<=%s; "
+                            "getrandbits-seam (bit-level) trees: shuffle n<=4, sample n<=5 k<=n with up to 4 extra requests"
+                            % ("" if q else ",17", "3" if q else "4", "2" if q else "3"),
+            "legacy": "getRandomInteger 0..16, getRandomNBitInteger 1..16, getRandomRange a 0..3 x b-a 1..301",
+            "cryptographic sizes": "boundary tapes {0..0, 1, bound-1, bound, bound+1, F..F, reject-reject-accept, masked-off top bits set} for "
+                                   "ECC.generate on 9 curves, FIPS ECDSA nonces on 5 curves, FIPS DSA nonces and DSA.generate on 3 stored "
+                                   "domains, RSA.generate, blinding factors of ECDSA/DSA/RSA, Integer.random/random_range at 63..2048 bits "
+                                   "in 3 back-ends",
+        },
+    })
+    ctx.assume("rejection depth: the attempt after a rejection is enumerated completely only to the stated depth (<= 2 rejections for "
+               "1-byte attempts while a level has <= the stated number of tapes); beyond it exact uniformity rests on the verified "
+               "identity 'attempt after any explored rejected prefix == fresh attempt'")
+    ctx.assume("ranges needing 9..16 bits: the second attempt is enumerated as a cross {all rejected prefixes} x {6 continuations} + "
+               "{3 rejected prefixes} x {all 65536 continuations} on the marked cases only; ranges needing >= 17 bits only in the "
+               "thorough tier and only the first attempt")
+    ctx.assume("composite selections at byte level are enumerated to the stated number of extra requests; deeper rejection histories at "
+               "the getrandbits seam (each getrandbits(k) call a choice point with 2^k equally likely answers), justified by the complete "
+               "byte-level check of getrandbits(1..16) and a tripwire on byte reads below the seam")
+    ctx.assume("cryptographic sizes cannot be enumerated: only the listed boundary tapes (plus a deterministic fallback stream) are run; "
+               "there the oracle is range + equality with the plain reference rejection sampler on the same bytes")
+    ctx.assume("DSA private keys are derived by FIPS 186-4 B.1.1 (extra random bits, modulo), not by rejection: logged as an observation; "
+               "getPrime/getStrongPrime and ElGamal generation are not covered")
+
+
+def replay(case, acc):
+    from . import _c18_consumers as C
+    p = case["part"]
+
+    def tup(x):
+        return tuple(tup(v) if isinstance(v, list) else v for v in x)
+    restore_module_rng()
+    if p == "consumer":
+        C.check_consumer(tup(case["spec"]), acc)
+        return
+    with T.Tripwire() as tw:
+        _Ctl.trip = tw
+        try:
+            if p == "single":
+                check_single(tup(case["spec"]), case["limit"], case["maxdepth"], case["cross"], acc)
+            elif p == "tree":
+                check_tree(tup(case["spec"]), case["extra"], acc)
+            elif p == "sharded":
+                sub = Acc()
+                for part in range(32):
+                    sharded_part(tup(case["spec"]), tuple(range(part * 8, part * 8 + 8)), sub)
+                spec = tup(case["spec"])
+                sharded_verdict(spec, [r for r in sub.distinct.get("rle", ()) if r[0] == spec],
+                                [r for r in sub.distinct.get("rle_open", ()) if r[0] == spec], acc, 32)
+            elif p == "bigtree":
+                sub = Acc()
+                spec = tup(case["spec"])
+                for part in range(64):
+                    tree_part(spec, case["extra"], tuple(range(part * 4, part * 4 + 4)), sub)
+                tree_verdict(spec, case["extra"], list(sub.distinct.get("thist", ())), 64, acc)
+        finally:
+            _Ctl.trip = None
